@@ -204,6 +204,9 @@ def run(ctx):
         for k, (n_, why) in ga.items():
             if gu[k] < n_:
                 res.floor("R1.1", "sites matching audit line `%s` of %s (remove or lower the stale line)" % (k, tsv), gu[k], n_)
+    # ---------------- R1.3b ignore_errors is a tree-wide setting (shared rule R5.8)
+    from rules.c05 import global_setters
+    global_setters(fx, res, "R1.3", ["ignore_errors"])
     # ---------------- R1.1b checked lemma behind the flat_map audit entries (shared with C12)
     import lemmas
     lemmas.flat_map_lockstep(fx, res, "R1.1")
